@@ -11,29 +11,42 @@
 (***************************************************************************)
 EXTENDS Integers, Sequences, FiniteSets, TLC
 
-CONSTANTS FNames, Evs, MaxLen, MaxVer
-VARIABLES registry, ns, hist
-vars == <<registry, ns, hist>>
+(* All evaluators of a history share ONE model: the formula that calls f is  *)
+(* one cell, evaluated by whichever evaluator the call names.  Bind selects *)
+(* where the name is resolved:                                              *)
+(*   "per-call"  in the calling evaluator's table, at every evaluation (the *)
+(*               shipped design)                                            *)
+(*   "per-node"  once, when the formula's node is first evaluated - the     *)
+(*               function stays bound to the syntax tree of the shared      *)
+(*               model (a plausible optimisation; violates CallUsesOwnTable)*)
+CONSTANTS FNames, Evs, MaxLen, MaxVer, Bind
+VARIABLES registry, ns, hist, bound
+vars == <<registry, ns, hist, bound>>
 
-Init == registry = [f \in FNames |-> 0] /\ ns = [e \in {} |-> registry] /\ hist = <<>>
+Init == registry = [f \in FNames |-> 0] /\ ns = [e \in {} |-> registry] /\ hist = <<>> /\ bound = [f \in FNames |-> 0]
 
 Register(f) == /\ Len(hist) < MaxLen /\ registry[f] < MaxVer
-               /\ registry' = [registry EXCEPT ![f] = registry[f] + 1] /\ UNCHANGED ns
+               /\ registry' = [registry EXCEPT ![f] = registry[f] + 1] /\ UNCHANGED <<ns, bound>>
                /\ hist' = Append(hist, [op |-> "register", f |-> f, e |-> 0, res |-> "none", ver |-> registry[f] + 1])
 NewEvaluator(e) == /\ Len(hist) < MaxLen /\ e \notin DOMAIN ns
                    /\ ns' = [x \in DOMAIN ns \cup {e} |-> IF x = e THEN registry ELSE ns[x]]      \* snapshot
-                   /\ UNCHANGED registry
+                   /\ UNCHANGED <<registry, bound>>
                    /\ hist' = Append(hist, [op |-> "new", f |-> "", e |-> e, res |-> "none", ver |-> 0])
 \* "value": the snapshot version is also the current one; "open": registered or re-registered after the evaluator was
 \* created (either version may answer - or none); "no-value": never registered
 Outcome(e, f) == IF ns[e][f] > 0 /\ ns[e][f] = registry[f] THEN "value"
                  ELSE IF registry[f] > 0 THEN "open" ELSE "no-value"
+\* the version that answers the call
+Used(e, f) == IF Bind = "per-node" /\ bound[f] > 0 THEN bound[f] ELSE ns[e][f]
 CallF(e, f) == /\ Len(hist) < MaxLen /\ e \in DOMAIN ns
-               /\ hist' = Append(hist, [op |-> "call", f |-> f, e |-> e, res |-> Outcome(e, f), ver |-> ns[e][f]])
+               /\ hist' = Append(hist, [op |-> "call", f |-> f, e |-> e, res |-> Outcome(e, f), ver |-> Used(e, f)])
+               /\ bound' = IF Bind = "per-node" /\ bound[f] = 0 /\ ns[e][f] > 0 THEN [bound EXCEPT ![f] = ns[e][f]] ELSE bound
                /\ UNCHANGED <<registry, ns>>
 Next == (\E f \in FNames : Register(f)) \/ (\E e \in Evs : NewEvaluator(e)) \/ (\E e \in Evs, f \in FNames : CallF(e, f))
 Spec == Init /\ [][Next]_vars
 
+\* whichever evaluator evaluated the shared formula before: a call is answered from the calling evaluator's own table
+CallUsesOwnTable == \A i \in 1..Len(hist) : hist[i].op = "call" => hist[i].ver = ns[hist[i].e][hist[i].f]
 SnapshotWithinRegistry == \A e \in DOMAIN ns, f \in FNames : ns[e][f] <= registry[f]
 CallsAfterCreation == \A i \in 1..Len(hist) : hist[i].op = "call" => \E j \in 1..(i - 1) : hist[j].op = "new" /\ hist[j].e = hist[i].e
 VisibleIfRegisteredBefore == \A i \in 1..Len(hist) : (hist[i].op = "call" /\ hist[i].res = "value") =>
